@@ -362,7 +362,9 @@ fn oracle_inner(c: &Case, ctx: &mut Ctx, run: &mut Run, trace: &mut Vec<String>)
 		}
 		lagged |= run.pending.len() >= 2;
 		jo.scan(&run.sim, hb)?;
-		if !matches!(st, Step::Rebroadcast) {
+		// the ChainMonitor persists a monitor with pending claims after every chain notification (and the
+		// restart writes the reloaded one); `rebroadcast_pending_claims` and estimator changes persist nothing
+		if run.sim.height_of(v) != hb || matches!(st, Step::Reload { .. }) {
 			jo.mark_durable();
 		}
 		jo.check_balances(&run.sim)?;
